@@ -596,11 +596,11 @@ class FTPFS(FS):
             tm_hour = int(time_text[8:10])
             tm_min = int(time_text[10:12])
             tm_sec = int(time_text[12:14])
+            epoch_time = calendar.timegm(
+                (tm_year, tm_month, tm_day, tm_hour, tm_min, tm_sec)
+            )
         except ValueError:
             return None
-        epoch_time = calendar.timegm(
-            (tm_year, tm_month, tm_day, tm_hour, tm_min, tm_sec)
-        )
         return epoch_time
 
     @classmethod
@@ -641,7 +641,11 @@ class FTPFS(FS):
             size_str = facts.get("size", facts.get("sizd", "0"))
             size = 0
             if size_str.isdigit():
-                size = int(size_str)
+                try:
+                    size = int(size_str)
+                except ValueError:
+                    # isdigit() accepts e.g. superscript digits
+                    size = 0
             details["size"] = size
             if "modify" in facts:
                 details["modified"] = cls._parse_ftp_time(facts["modify"])
